@@ -6,6 +6,7 @@ import (
 	"fmt"
 	"math/big"
 	"sort"
+	"strings"
 
 	"github.com/NethermindEth/juno/core/crypto"
 	"github.com/NethermindEth/juno/core/felt"
@@ -54,6 +55,7 @@ func feltHex(f *felt.Felt) string { return f.BigInt(new(big.Int)).Text(16) }
 
 // observation points: root after each hash / commit marker and at the end
 type trace struct {
+	Sets  [][]string `json:"-"` // canonical node set of every Commit (trie2 only)
 	Roots []string `json:"roots"`
 	Err   string   `json:"err,omitempty"`
 	Read  string   `json:"read,omitempty"` // first read-back (Get after reopen) that differs from the map
@@ -93,6 +95,7 @@ type t2sess struct {
 	hf     crypto.HashFn
 	tr     *trie2.Trie
 	owner  felt.Address
+	lastSet []string
 }
 
 func openT2(c *TrieCase) (*t2sess, error) {
@@ -117,8 +120,64 @@ func (s *t2sess) reopen() error {
 	return nil
 }
 
+// canonSet renders a committed node set the way the Lean driver prints its own.
+func canonSet(nodes *trienode.NodeSet, height uint8) []string {
+	if nodes == nil {
+		return []string{"none"}
+	}
+	type ent struct {
+		l int
+		p *big.Int
+		s string
+	}
+	var es []ent
+	for path, n := range nodes.Nodes {
+		pf := path.Felt()
+		pn := pf.BigInt(new(big.Int))
+		pre := fmt.Sprintf("%d:%s", path.Len(), pn.Text(16))
+		var str string
+		if _, ok := n.(*trienode.DeletedNode); ok {
+			l := "0"
+			if n.IsLeaf() {
+				l = "1"
+			}
+			str = "D:" + pre + ":" + l
+		} else {
+			h := n.Hash()
+			dec, err := trienode.DecodeNode(n.Blob(), &h, path.Len(), height)
+			switch d := dec.(type) {
+			case *trienode.ValueNode:
+				v := felt.Felt(*d)
+				str = "L:" + pre + ":" + feltHex(&v)
+			case *trienode.BinaryNode:
+				l, r := d.Children[0].Hash(nil), d.Children[1].Hash(nil)
+				str = "B:" + pre + ":" + feltHex(&h) + ":" + feltHex(&l) + ":" + feltHex(&r)
+			case *trienode.EdgeNode:
+				c := d.Child.Hash(nil)
+				ef := d.Path.Felt()
+				str = fmt.Sprintf("E:%s:%s:%s:%d:%s", pre, feltHex(&h), feltHex(&c), d.Path.Len(), ef.BigInt(new(big.Int)).Text(16))
+			default:
+				str = fmt.Sprintf("X:%s:%v", pre, err)
+			}
+		}
+		es = append(es, ent{int(path.Len()), pn, str})
+	}
+	sort.Slice(es, func(i, j int) bool {
+		if es[i].l != es[j].l {
+			return es[i].l < es[j].l
+		}
+		return es[i].p.Cmp(es[j].p) < 0
+	})
+	out := make([]string, len(es))
+	for i, e := range es {
+		out[i] = e.s
+	}
+	return out
+}
+
 func (s *t2sess) commit() (felt.Felt, error) {
 	root, nodes := s.tr.Commit()
+	s.lastSet = canonSet(nodes, s.height)
 	if nodes != nil {
 		batch := s.disk.NewBatch()
 		merged := trienode.NewMergeNodeSet(nodes)
@@ -160,6 +219,7 @@ func runTrie2(c *TrieCase) (tr trace) {
 					return err
 				}
 				tr.Roots = append(tr.Roots, feltHex(&h))
+				tr.Sets = append(tr.Sets, s.lastSet)
 				if tr.Read == "" {
 					tr.Read = readBack(s.tr, written)
 				}
@@ -295,6 +355,73 @@ func legacyModelLines(c *TrieCase, id int) (lines []string, obsIdx []int) {
 	obsIdx = append(obsIdx, len(lines))
 	lines = append(lines, fmt.Sprintf("lhash %d", id))
 	return lines, obsIdx
+}
+
+// script for the trie2 model with node database / tracer / lazy resolution: commit answers carry
+// the node set
+func lazyModelLines(c *TrieCase, id int) (lines []string, obsIdx []int) {
+	lines = append(lines, fmt.Sprintf("bnew %d %d %s", id, c.Height, c.Hash))
+	for _, op := range c.Ops {
+		switch op.Op {
+		case "put":
+			lines = append(lines, fmt.Sprintf("bput %d %s %s", id, op.K, op.V))
+		case "hash":
+			obsIdx = append(obsIdx, len(lines))
+			lines = append(lines, fmt.Sprintf("bhash %d", id))
+		case "commit":
+			obsIdx = append(obsIdx, len(lines))
+			lines = append(lines, fmt.Sprintf("bcommit %d", id))
+		}
+	}
+	obsIdx = append(obsIdx, len(lines))
+	lines = append(lines, fmt.Sprintf("bhash %d", id))
+	return lines, obsIdx
+}
+
+// script for the restart model (ModelLazy.lean): commit = Hash() + reopen
+func restartModelLines(c *TrieCase, id int) (lines []string, obsIdx []int) {
+	lines = append(lines, fmt.Sprintf("znew %d %d %s", id, c.Height, c.Hash))
+	for _, op := range c.Ops {
+		switch op.Op {
+		case "put":
+			lines = append(lines, fmt.Sprintf("zput %d %s %s", id, op.K, op.V))
+		case "hash":
+			obsIdx = append(obsIdx, len(lines))
+			lines = append(lines, fmt.Sprintf("zhash %d", id))
+		case "commit":
+			obsIdx = append(obsIdx, len(lines))
+			lines = append(lines, fmt.Sprintf("zhash %d", id))
+			lines = append(lines, fmt.Sprintf("zreopen %d", id))
+		}
+	}
+	obsIdx = append(obsIdx, len(lines))
+	lines = append(lines, fmt.Sprintf("zhash %d", id))
+	return lines, obsIdx
+}
+
+// compareSet checks one model node-set entry against the real one: structure fields literally,
+// hash terms by evaluation with the real primitive.
+func compareSet(model, impl []string) string {
+	if len(model) != len(impl) {
+		return fmt.Sprintf("node set sizes differ: model %d, implementation %d", len(model), len(impl))
+	}
+	for i := range model {
+		mf, rf := strings.Split(model[i], ":"), strings.Split(impl[i], ":")
+		if len(mf) != len(rf) || mf[0] != rf[0] {
+			return fmt.Sprintf("entry %d: model %s, implementation %s", i, clip(model[i]), impl[i])
+		}
+		for j := range mf {
+			if mf[j] == rf[j] {
+				continue
+			}
+			// a term field?
+			v, err := evalTerm(mf[j])
+			if err != nil || feltHex(&v) != rf[j] {
+				return fmt.Sprintf("entry %d field %d: model %s, implementation %s", i, j, clip(model[i]), impl[i])
+			}
+		}
+	}
+	return ""
 }
 
 // model script for the Lean driver: slot id, answers to be read back for each line
